@@ -715,6 +715,28 @@ def gen_C03(c, rng, tier):
                     ops += [['run', calls[start:]], ['text']]
                     s = [e for e in s0 if e[0] != 'ops'] + [['ops', ops]]
                     c.add(t, 'run', s, classes=cl + ['cuts_%d' % sum(cuts)], resume_group=group, nontrivial=sum(cuts) > 0, info=info)
+    gen_C03_target(c, rng, tier)
+
+def gen_C03_target(c, rng, tier):
+    """early stop by target precision on resumed runs: the decision after the interruption must take the earlier iterations into account,
+    so the resumed run stops exactly where the uninterrupted one does"""
+    for t in TYPES:
+        fmt = FMTS[t]
+        for kind in KINDS:
+            for _ in range(scale(tier, 3, 16)):
+                n = rng.choice([4, 5, 6])
+                target = rng.choice([Fraction(1, 4), Fraction(1, 10), Fraction(1, 20), Fraction(2, 5), Fraction(1, 50)])
+                s0, cl, info = rand_run(rng, fmt, kind, iters=n, calls=[4, 9, 16], cb=['builtin', rng.choice([0, 1]), fmt.rtok(target)], poly=True, finite_only=True)
+                calls = info['calls']; group = len(c.cases)
+                cutsets = [tuple([0] * (n - 1))] + [tuple(1 if i == k else 0 for i in range(n - 1)) for k in range(n - 1)]
+                for cuts in cutsets:
+                    ops = []; start = 0
+                    for i, cut in enumerate(cuts):
+                        if cut:
+                            ops += [['run', calls[start:i + 1]], ['reload']]; start = i + 1
+                    ops += [['run', calls[start:]], ['text']]
+                    c.add(t, 'run', [e for e in s0 if e[0] != 'ops'] + [['ops', ops]], classes=cl + ['cuts_%d' % sum(cuts), 'target_precision'],
+                          resume_group=group, nontrivial=sum(cuts) > 0, info=info)
 
 @prop('C05', 'checkpoints of the three kinds with extreme field values (denormal, largest finite, negative, -0, values needing all digits), any number of '
       'results / distributions / bins / channels / dimensions, names empty / blank / leading blank / digits, written to text (compared token by token with the '
